@@ -501,6 +501,10 @@ class Interp:
         if isinstance(st.op, ast.Add) and isinstance(cur, VList):
             B.list_extend(self, cur, rhs)
             new = cur
+        elif isinstance(st.op, ast.Add) and isinstance(cur, SAny) and not self.spec() and \
+                isinstance(rhs, (tuple, VList, pv.VSeqIter)) and not self.ctx.feasible(z3.Not(PV.is_PList(cur.t))):
+            # list += iterable  extends the list (list + tuple would be a TypeError, += is not)
+            new = SAny(PV.PList(z3.Concat(PV.litems(cur.t), self.seq_term(rhs, st.lineno))))
         else:
             new = self.binop(st.op, cur, rhs, st.lineno)
         if isinstance(tgt, ast.Name):
